@@ -124,6 +124,27 @@ class C10Stream(A.ActorStream):
             want = "cancelled" if L["dc"] else (L["exit"][-1][1] if L["exit"] else None)
             if want is not None and o != want:
                 V(f"outcome: loop task {tid} of actor {L['a']} finished as {o}, its last run ended as {want}")
+        # ---- cancellation only on request: a task's Task.cancelling() count is exactly the number of cancel() /
+        #      stop() / cancel_and_await() / Task.cancel() requests recorded for it (a waiter that gives up -- wait() or
+        #      run() cancelled or timed out -- must not cancel the service's tasks)
+        requested = {}
+        for e in log:
+            if e[1] == "cancel":
+                tg = e[3]
+            elif e[1] == "stopcall":
+                tg = e[5]
+            elif e[1] == "cawcall":
+                tg = e[4] or []
+            elif e[1] == "cancel1":
+                tg = [e[2]]
+            else:
+                continue
+            for t in tg:
+                requested[t] = requested.get(t, 0) + 1
+        for tid, (o, cr) in fin.items():
+            if cr != requested.get(tid, 0):
+                V(f"cancel-on-request: task {tid} of actor {owner.get(tid, ('?',))[0]} received {cr} cancellation(s), "
+                  f"{requested.get(tid, 0)} were requested through cancel()/stop()/cancel_and_await()/Task.cancel()")
         # ---- stop() / wait()
         created_after = lambda idx, a: {e[3] for e in log[idx:] if (e[1] == "add" or (e[1] == "start" and e[4])) and e[2] == a}
         rets = {e[2]: (i, e) for i, e in enumerate(log) if e[1] == "ret"}
@@ -157,6 +178,17 @@ class C10Stream(A.ActorStream):
             a, wid = e[2], e[3]
             set0 = e[6] if is_stop else e[4]
             name = "stop" if is_stop else "wait"
+            # every task registered with the service (start() / self.tasks.add(...)) and still unfinished belongs to the
+            # set stop()/wait() handles
+            registered = sorted(t for t, (oa, c) in owner.items() if oa == a and c < i and not (t in fin_at and fin_at[t][0] < i))
+            missing = [t for t in registered if t not in set0]
+            if missing:
+                V(f"{name}: {name}() of actor {a} ignores the unfinished task(s) {missing} registered through its `tasks` set "
+                  f"(it handles {set0})")
+            elif wid in rets:
+                late = [t for t in registered if t not in fin_at or fin_at[t][0] > rets[wid][0]]
+                if late:
+                    V(f"{name}: {name}() of actor {a} returned while the registered task(s) {late} were still running")
             if is_stop and sorted(e[5]) != sorted(e[4]):
                 V(f"stop: stop() of actor {a} cancelled tasks {e[5]}, its unfinished tasks were {e[4]}")
             if wid not in rets:
@@ -233,6 +265,9 @@ class C10Stream(A.ActorStream):
         begun = {e[2]: e for e in log if e[1] == "runbegin"}
         calls = {e[2]: e for e in log if e[1] == "runcall"}
         runrets = {e[2]: (i, e) for i, e in enumerate(log) if e[1] == "runret"}
+        for e in log:
+            if e[1] == "runerr":
+                V(f"run: run() over actors {begun[e[2]][3]} raised {e[3]} instead of returning when all of them had finished")
         for rid, b in begun.items():
             ws = calls[rid][3] if rid in calls else []
             wr = [rets.get(w) for w in ws]
